@@ -190,6 +190,31 @@ def make_hubbard(rng, adj, u, nelec, trial_kind="uhf_cpmc", prop_kind="cpmc", dt
     return dict(ham=ham, ham_data=ham_data, trial=trial, wave_data=wave_data, prop=prop, prop_data=prop_data, adj=adj, u=u)
 
 
+def scf_residual(S):
+    """how far the trial orbitals of a system are from a fixed point of the Roothaan map: change of the occupied projectors under ONE
+    plain Roothaan step computed here (no library code)"""
+    trial, ham = S["trial"], S["ham"]
+    norb = ham.norb
+    ne = trial.nelec
+    h1 = np.array(S["ham_data"]["h1"])
+    L = np.array(S["ham_data"]["chol"]).reshape(-1, norb, norb)
+    mo = S["wave_data"]["mo_coeff"]
+    if type(trial).__name__ == "rhf":
+        h1 = np.array([(h1[0] + h1[1]) / 2] * 2)
+        cs = [np.array(mo)[:, :ne[0]], np.array(mo)[:, :ne[1]]]
+    else:
+        cs = [np.array(mo[0]), np.array(mo[1])]
+    dm = [c @ c.conj().T for c in cs]
+    D = dm[0] + dm[1]
+    J = sum(np.sum(l * D) * l for l in L)
+    out = 0.0
+    for s in (0, 1):
+        Kx = sum(l @ dm[s] @ l for l in L)
+        w, v = np.linalg.eigh(h1[s] + J - Kx)
+        out = max(out, float(np.abs(v[:, :ne[s]] @ v[:, :ne[s]].conj().T - dm[s]).max()))
+    return out
+
+
 def converge_independent(S, iters=600):
     """SCF-converge the trial of a system with a plain Roothaan solver that shares no code with the library
     (so that a defect in trial.optimize cannot make a trial look converged); rebuilds intermediates and prop_data"""
